@@ -672,7 +672,7 @@ int main(int argc, char **argv)
         { "open example.org", "auth1 PLAIN c:mallory:mpw", "deliver 0", "open example.org", "bind r", "session", "msg - victim@example.org/v",
           "msg victim@example.org/v victim@example.org/v", "msg mallory@example.org victim@example.org", "pres subscribe - victim@example.org",
           "iq get - example.org", "iq get - nobody@example.org", "iq result - nobody@example.org", "msg - mallory@example.org", "close" },
-        { "open example.org", "auth1 DIGEST-MD5 -", "resp1 d:mallory:mallory:mpw:a", "deliver 0", "resp1 -", "bind -", "bind r", "msg - mallory@example.org/G1" },
+        { "open example.org", "auth1 DIGEST-MD5 -", "resp1 d:mallory:mallory:mpw:a", "deliver 0", "resp1 -", "bind -", "msg - mallory@example.org", "bind r", "msg - mallory@example.org" },
         { "open example.org", "auth2 DIGEST-MD5 - b:tag", "resp2 d:eve:eve:epw:a", "deliver 0", "resp2 -", "msg - victim@example.org" },
         { "msg - victim@example.org/v", "open example.org", "msg - victim@example.org/v" },
         { "open evil.org", "msg - victim@example.org/v" },
